@@ -417,7 +417,31 @@ class E2ECase:
             fault = c.get("fault")
             state = {"n": 0, "hit": None}
             seq0 = w.net.seq
-            if fault:
+            if fault and fault["type"] == "reflect":
+                # a dishonest rendezvous point (it holds the keys of the adjacent hops, not the end-to-end keys) takes the
+                # cell it should pass on, and sends it back to where it came from on the same circuit
+                rp_entries = {(nd.idx, cid): (nd, r) for nd in w.nodes for cid, r in nd.overlay.relay_from_to.items()
+                              if r.rendezvous_relay}
+
+                def hook(fl):
+                    cell = parse_cell(fl.data, w.prefix)
+                    if cell is None or cell["plaintext"] or fl.seq <= seq0 or state["hit"] is not None:
+                        return None
+                    nd = w.by_addr.get(fl.dst)
+                    ent = rp_entries.get((nd.idx, cell["circuit_id"])) if nd is not None else None
+                    if ent is None:
+                        return None
+                    keys = w.trace.ref(ent[1].hop.keys)
+                    inner = try_decrypt(keys, cell["message"], FORWARD) if keys is not None else None
+                    if inner is None:
+                        return None
+                    back = keys.encrypt_str(inner, BACKWARD)
+                    bounced = w.prefix + b"\x00" + struct.pack(">I", cell["circuit_id"]) + b"\x00\x00" + back
+                    state["hit"] = CELL_HDR
+                    w.net.inject(fl.dst, fl.src, bounced, note="reflected")
+                    return None
+                w.net.on_send = hook
+            elif fault:
                 def hook(fl):
                     cell = parse_cell(fl.data, w.prefix)
                     if cell is None or cell["plaintext"] or fl.seq <= seq0:
@@ -441,13 +465,20 @@ class E2ECase:
                      if fl.seq > seq0 and parse_cell(fl.data, w.prefix) is not None
                      and not parse_cell(fl.data, w.prefix)["plaintext"]]
             body_hit = state["hit"] is not None and state["hit"] >= CELL_HDR
-            info["cls"] = "e2e/%dhop/%s/%s/%s" % (hops, c["kind"], size_class(c["size"]), "flip" if fault else "none")
+            info["cls"] = "e2e/%dhop/%s/%s/%s" % (hops, c["kind"], size_class(c["size"]), fault["type"] if fault else "none")
             info["nontrivial"] = (c["size"] >= 8 and not fault) or body_hit
-            info["desc"] = ("e2e", hops, c["kind"], size_class(c["size"]), fault and (fault["link"], "body" if body_hit
-                                                                                       else state["hit"]))
+            info["desc"] = ("e2e", hops, c["kind"], size_class(c["size"]), fault and (fault["type"], fault.get("link"),
+                                                                                       "body" if body_hit else state["hit"]))
             for g in got:
                 if g not in want:
                     self.fail("I3", "delivery", f"{g[0]} received data that was never sent to it: {g[2][:32]!r}")
+            if fault and fault["type"] == "reflect":
+                # the honest copy still reaches the other end; the reflected copy must not be delivered to the sender
+                info["nontrivial"] = state["hit"] is not None
+                if got != want:
+                    self.fail("I3" if any(g not in want for g in got) else "I1", "reflected",
+                              f"with the rendezvous point bouncing the cell back, deliveries were {[(g[0], g[2][:24]) for g in got]}")
+                return info
             if fault and state["hit"] is not None:
                 if (body_hit or state["hit"] != 28) and got:
                     self.fail("I3", "altered:" + ("body" if body_hit else f"header{state['hit']}"),
@@ -536,8 +567,9 @@ def _strategy():
 
 def _e2e_strategy():
     from hypothesis import strategies as st
-    fault = st.one_of(st.none(), st.fixed_dictionaries({"type": st.just("flip"), "link": st.integers(0, 5),
-                                                        "byte": st.integers(22, 400), "mask": st.integers(1, 255)}))
+    fault = st.one_of(st.none(), st.just({"type": "reflect"}),
+                      st.fixed_dictionaries({"type": st.just("flip"), "link": st.integers(0, 5),
+                                             "byte": st.integers(22, 400), "mask": st.integers(1, 255)}))
     return st.fixed_dictionaries({"seed": st.integers(0, 10_000), "hops": st.integers(1, 2),
                                   "kind": st.sampled_from(["e2e_d2s", "e2e_s2d"]),
                                   "size": st.sampled_from([2, 8, 23, 64, 300, 1000]) | st.integers(2, 1200), "fault": fault})
